@@ -328,7 +328,11 @@ func (c *c19Case) invoke(h message.HandlerFunc) {
 // ---- building the real chain
 
 func (g *c19Group) build(mws []c19Mw) message.HandlerFunc {
-	h := message.HandlerFunc(g.handler)
+	return g.buildOn(mws, g.handler)
+}
+
+func (g *c19Group) buildOn(mws []c19Mw, inner message.HandlerFunc) message.HandlerFunc {
+	h := inner
 	for i := len(mws) - 1; i >= 0; i-- {
 		m := mws[i]
 		switch m.K {
@@ -570,6 +574,11 @@ func (g *c19Gen) newCase(grp *c19Group, gi, flight int, mws []c19Mw, focusDelay 
 		uuid: fmt.Sprintf("in-%d", g.next)}
 	c.msg = message.NewMessage(c.uuid, []byte("consumed"))
 	c.base, c.cancel = context.WithCancel(context.Background())
+	if r.Intn(6) == 0 { // the message arrives with a deadline already on its context (whole hours, like the Timeouts)
+		var c2 context.CancelFunc
+		c.base, c2 = context.WithTimeout(c.base, time.Duration(1+r.Intn(7))*time.Hour)
+		_ = c2 // released through the parent's cancel
+	}
 	c.msg.SetContext(c.base)
 	switch r.Intn(3) {
 	case 0:
@@ -739,10 +748,78 @@ func c19Throttle(r *rand.Rand, count int64, dur time.Duration, workers, n int, m
 	return res
 }
 
+// ---- a deadline visible during the call: the handler blocks on Done() under small Timeouts
+
+type c19DL struct {
+	Mws         []c19Mw `json:"mws"`
+	DMin        int64   `json:"dmin"`  // the shortest Timeout of the chain
+	Dones       []int64 `json:"dones"` // per attempt: when the handler saw Done(), since just before the chain was called
+	Want        int     `json:"want"`  // attempts expected
+	DeadlineOK  []bool  `json:"deadline_ok"`  // Deadline() present and no later than (handler entry + shortest timeout)
+	ErrDeadline []bool  `json:"err_deadline"` // Err() == context.DeadlineExceeded once Done() fired
+	NeverDone   bool    `json:"never_done"`   // Done() did not fire within 20 s
+	Restored    bool    `json:"restored"`     // afterwards msg.Context() is the original object and alive
+}
+
+func c19Deadline(g *c19Gen) c19DL {
+	r := g.r
+	small := []int64{8, 15, 25, 40}
+	var mws []c19Mw
+	n := 1 + r.Intn(3)
+	pos := r.Intn(n)
+	for i := 0; i < n; i++ {
+		k := []string{"timeout", "corr", "rec", "ack", "cb", "thr", "delay", "ign"}[r.Intn(8)]
+		if i == pos {
+			k = "timeout"
+		}
+		m := g.mw(k)
+		if k == "timeout" {
+			m.D = small[r.Intn(len(small))] * int64(time.Millisecond)
+		}
+		mws = append(mws, m)
+	}
+	res := c19DL{Want: 1}
+	for _, m := range mws {
+		if m.K == "timeout" && (res.DMin == 0 || m.D < res.DMin) {
+			res.DMin = m.D
+		}
+	}
+	if r.Intn(2) == 0 {
+		rt := c19Mw{K: "retry", MaxR: 1 + r.Intn(2)}
+		mws = append([]c19Mw{rt}, mws...)
+		res.Want = 1 + rt.MaxR
+	}
+	res.Mws = mws
+	var t0 time.Time
+	grp := &c19Group{cases: map[string]*c19Case{}}
+	h := grp.buildOn(mws, func(msg *message.Message) ([]*message.Message, error) {
+		ctx := msg.Context()
+		dl, ok := ctx.Deadline()
+		res.DeadlineOK = append(res.DeadlineOK, ok && !dl.After(time.Now().Add(time.Duration(res.DMin))))
+		select {
+		case <-ctx.Done():
+		case <-time.After(20 * time.Second):
+			res.NeverDone = true
+		}
+		res.Dones = append(res.Dones, int64(time.Since(t0)))
+		res.ErrDeadline = append(res.ErrDeadline, ctx.Err() == context.DeadlineExceeded)
+		return nil, errors.New("blocked until the deadline")
+	})
+	msg := message.NewMessage("dl", nil)
+	base, cancel := context.WithCancel(context.Background())
+	defer cancel()
+	msg.SetContext(base)
+	t0 = time.Now()
+	_, _ = h(msg)
+	res.Restored = msg.Context() == base && msg.Context().Err() == nil
+	return res
+}
+
 func runC19(args []string) error {
 	fs, out, seed := newFlags("c19")
 	n := fs.Int("n", 500, "number of groups")
 	thr := fs.Int("thr", 5, "number of Throttle timing scenarios")
+	ndl := fs.Int("dl", 6, "number of blocking-handler deadline scenarios")
 	witness := fs.Bool("witness", false, "prepend the D2/D3 witnesses")
 	_ = fs.Parse(args)
 	c19In = script.NewInterner()
@@ -793,7 +870,11 @@ func runC19(args []string) error {
 		mode := []string{"mixed", "done", "alive", "mixed", "done", "mixed"}[i%6]
 		thrs = append(thrs, c19Throttle(g.r, c[0], time.Duration(c[1]), int(c[2]), 12, mode))
 	}
-	return writeJSON(*out, map[string]interface{}{"cases": all, "throttle": thrs, "strings": c19In.Tab})
+	var dls []c19DL
+	for i := 0; i < *ndl; i++ {
+		dls = append(dls, c19Deadline(g))
+	}
+	return writeJSON(*out, map[string]interface{}{"cases": all, "throttle": thrs, "deadline": dls, "strings": c19In.Tab})
 }
 
 func init() { register("c19", runC19) }
